@@ -8,18 +8,18 @@
 From SV Require Export Model.GroupKey.
 
 (* keyedBuffer (keyedCount is always len of the buffer; lastActive only matters for reaping) *)
-Definition cstate := list (bytes * list row).
+Definition cw_state := list (bytes * list krow).
 
-Fixpoint buf_get (st : cstate) (k : bytes) : list row :=
+Fixpoint cw_buf_get (st : cw_state) (k : bytes) : list krow :=
   match st with
   | [] => []
-  | (k', b) :: st' => if bytes_eqb k k' then b else buf_get st' k
+  | (k', b) :: st' => if bytes_eqb k k' then b else cw_buf_get st' k
   end.
 
-Fixpoint buf_set (st : cstate) (k : bytes) (v : list row) : cstate :=
+Fixpoint cw_buf_set (st : cw_state) (k : bytes) (v : list krow) : cw_state :=
   match st with
   | [] => [(k, v)]
-  | (k', b) :: st' => if bytes_eqb k k' then (k', v) :: st' else (k', b) :: buf_set st' k v
+  | (k', b) :: st' => if bytes_eqb k k' then (k', v) :: st' else (k', b) :: cw_buf_set st' k v
   end.
 
 (* one received row:
@@ -28,32 +28,32 @@ Fixpoint buf_set (st : cstate) (k : bytes) (v : list row) : cstate :=
                                 if len(buf) > threshold { rem := buf[threshold:] } else { rem := empty }
                                 emit data }
    A batch is recorded with the key it was cut for. *)
-Definition cut (n : nat) (buf : list row) : list row * option (list row) :=
+Definition cw_cut (n : nat) (buf : list krow) : list krow * option (list krow) :=
   if n <=? length buf
   then ((if n <? length buf then skipn n buf else []), Some (firstn n buf))
   else (buf, None).
 
-Definition c_add (key : row -> bytes) (n : nat) (st : cstate) (r : row)
-  : cstate * list (bytes * list row) :=
+Definition cw_add (key : krow -> bytes) (n : nat) (st : cw_state) (r : krow)
+  : cw_state * list (bytes * list krow) :=
   let k := key r in
-  let (rest, fired) := cut n (buf_get st k ++ [r]) in
-  (buf_set st k rest, match fired with Some d => [(k, d)] | None => [] end).
+  let (rest, fired) := cw_cut n (cw_buf_get st k ++ [r]) in
+  (cw_buf_set st k rest, match fired with Some d => [(k, d)] | None => [] end).
 
-Fixpoint c_run (key : row -> bytes) (n : nat) (st : cstate) (h : list row)
-  : cstate * list (bytes * list row) :=
+Fixpoint cw_steps (key : krow -> bytes) (n : nat) (st : cw_state) (h : list krow)
+  : cw_state * list (bytes * list krow) :=
   match h with
   | [] => (st, [])
   | r :: h' =>
-      let (st1, o1) := c_add key n st r in
-      let (st2, o2) := c_run key n st1 h' in
+      let (st1, o1) := cw_add key n st r in
+      let (st2, o2) := cw_steps key n st1 h' in
       (st2, o1 ++ o2)
   end.
 
 (* the window as configured by SQL: keyed by getKey, started empty *)
-Definition run (n : nat) (h : list row) : list (bytes * list row) := snd (c_run cnt_key n [] h).
+Definition cw_run (n : nat) (h : list krow) : list (bytes * list krow) := snd (cw_steps cnt_key n [] h).
 
 (* projections used by the statements *)
-Definition batches_of (k : bytes) (out : list (bytes * list row)) : list (list row) :=
+Definition kbatches_of (k : bytes) (out : list (bytes * list krow)) : list (list krow) :=
   map snd (filter (fun b => bytes_eqb (fst b) k) out).
-Definition rows_of (t : list value) (h : list row) : list row :=
-  filter (fun r => tuple_eqb (tuple_of r) t) h.
+Definition krows_of (t : list kvalue) (h : list krow) : list krow :=
+  filter (fun r => ktuple_eqb (ktuple_of r) t) h.
